@@ -16,7 +16,7 @@ import (
 
 // C17 — schema guard (DESIGN 4/C17).
 
-const c17ShapePairs = 8
+const c17ShapePairs = 9
 
 func init() {
 	drivers["C17"] = &driver{cases: func(t string) int {
@@ -104,7 +104,26 @@ func shapePairs() []shapeFactory {
 	mk := func(name string, f func(uuid string) sod.Object) shapeFactory {
 		return shapeFactory{name: name, v1: v1, v2: f}
 	}
+	fieldless := func(i int) sod.Object {
+		type Shape struct {
+			sod.Item
+			hidden int
+		}
+		return &Shape{hidden: i}
+	}
 	return []shapeFactory{
+		// stored shape without any describable field (only the embedded Item
+		// and an unexported field), current shape with a field
+		{name: "fieldless-to-field", v1: fieldless, v2: func(u string) sod.Object {
+			type Shape struct {
+				sod.Item
+				hidden int
+				A      int `sod:"index"`
+			}
+			s := &Shape{A: 1}
+			s.Initialize(u)
+			return s
+		}},
 		mk("field-added", func(u string) sod.Object {
 			type Shape struct {
 				sod.Item
